@@ -16,7 +16,7 @@ CHECKS = {
         "technique": "model-based stateful property testing (rapid): generated op sequences vs. an ordered-map model",
         "design_ref": "DESIGN.md §5 C01",
         "quick": {"shards": 16, "n": 1200, "timeout": 600},
-        "thorough": {"shards": 16, "n": 30000, "timeout": 3400},
+        "thorough": {"shards": 16, "n": 45000, "timeout": 3400},
         "floor": {"quick": 1500, "thorough": 50000},
         "rule": "rapid draws (options, comparer, key pool, 10-250 ops: put/del/batch/large batch/get/compact/reopen/idle/snapshot/scan); "
                 "every write is followed by Get+Has of the touched keys, every CompactRange/reopen and the end of the case by Get+Has of all pool keys and a full scan, all compared with a map model. "
@@ -30,7 +30,7 @@ CHECKS = {
         "test": "TestC02", "level": "exploration",
         "technique": "model-based stateful property testing (rapid): generated iterator walks vs. a cursor over the model's sorted list",
         "quick": {"shards": 13, "n": 900, "timeout": 600, "extra": [{"test": "TestC02M", "n": 6000, "shards": 3}]},
-        "thorough": {"shards": 13, "n": 40000, "timeout": 3000, "extra": [{"test": "TestC02M", "n": 600000, "shards": 3}]},
+        "thorough": {"shards": 13, "n": 70000, "timeout": 3400, "extra": [{"test": "TestC02M", "n": 1000000, "shards": 3}]},
         "floor": {"quick": 500, "thorough": 20000},
         "rule": "rapid draws a DB history (writes, deletes, batches, compactions, snapshots held so that hidden versions stay in the tables, transactions) interleaved with iterators on DB / snapshot / transaction with drawn ranges and drawn walks (First/Last/Seek/Next/Prev, up to 30 moves, long-lived iterators resumed later). "
                 "Every move's result, Valid(), Key and Value are compared with a cursor over the model's sorted restricted list; each iterator ends with a full forward and a full backward pass. A second search (TestC02M) drives the component iterators directly with the same walk generator and oracle: iterator.NewMergedIterator over 1-6 array iterators (some empty) and iterator.NewIndexedIterator over chunked arrays, under four comparers. "
@@ -79,7 +79,7 @@ CHECKS = {
         "test": "TestC11", "level": "exploration",
         "technique": "model-based stateful property testing (rapid): transaction overlay model",
         "quick": {"shards": 12, "n": 700, "timeout": 600, "extra": [{"test": "TestC11F", "n": 120, "shards": 6}]},
-        "thorough": {"shards": 12, "n": 20000, "timeout": 3400, "extra": [{"test": "TestC11F", "n": 3000, "shards": 6}]},
+        "thorough": {"shards": 12, "n": 40000, "timeout": 3400, "extra": [{"test": "TestC11F", "n": 6000, "shards": 6}]},
         "floor": {"quick": 1000, "thorough": 20000},
         "rule": "rapid draws histories with OpenTransaction, transaction writes spanning several internal flushes, reads inside (overlay model) and outside (model at open) the transaction, Commit, Discard, Close with an open transaction, oversized DB.Write batches; after Discard/Commit/reopen a full sweep is compared with the model and, at idle, storage must contain no table outside the live set. "
                 "Non-trivial: a transaction was committed or discarded in a case that also flushed buffers.",
@@ -91,7 +91,7 @@ CHECKS = {
         "test": "TestC20", "level": "exploration",
         "technique": "stateful property testing in poison mode: argument and result buffers are overwritten after every call",
         "quick": {"shards": 16, "n": 900, "timeout": 600},
-        "thorough": {"shards": 16, "n": 30000, "timeout": 3400},
+        "thorough": {"shards": 16, "n": 45000, "timeout": 3400},
         "floor": {"quick": 1000, "thorough": 20000},
         "rule": "the C01 machine in poison mode: every key/value/batch buffer passed to Put/Delete/Write/Batch.Put/Batch.Delete/Seek is compared with a pre-call copy and then overwritten with 0xAA; every value returned by DB.Get / Transaction.Get is overwritten; iterator Key/Value are copied and compared again after further DB activity before the iterator moves; buffer pool, block cache and compression are drawn. All later reads are compared with a model built from private copies. "
                 "Non-trivial: >=2 Get results that came after flush+compaction (i.e. from table blocks) were scribbled and keys re-read.",
@@ -118,7 +118,7 @@ CHECKS = {
         "test": "TestC13", "level": "exploration", "engine": "component",
         "technique": "property-based round-trip testing of table.Writer/Reader with cursor-model walks and single-byte alteration (rapid)",
         "quick": {"shards": 16, "n": 250, "timeout": 600},
-        "thorough": {"shards": 16, "n": 15000, "timeout": 3000},
+        "thorough": {"shards": 16, "n": 22000, "timeout": 3400},
         "floor": {"quick": 200, "thorough": 10000},
         "shrink": False,
         "rule": "rapid draws sorted key/value sets (0..2000 entries; hostile keys, long shared prefixes, 0xff runs, empty values, values larger than a block), block size 1..4096, restart interval 1..64, compression, bloom bits and filter base, block cache and buffer pool on/off, the comparer (bytewise and contract-conforming custom ones, raw and through the real internal comparer with several versions per user key); then Get/Find/FindKey (filtered and not) of stored keys and of probes between/outside them, OffsetOf monotonicity, range-restricted iterators with drawn walks compared move by move with a cursor model plus full forward/backward passes; then one altered byte at a drawn offset before the footer: every stored key is returned with its own value or a non-not-found error, a scan yields original pairs in order and reports an error if any pair is missing. "
@@ -131,7 +131,7 @@ CHECKS = {
         "test": "TestC14", "level": "exploration", "engine": "component",
         "technique": "model-based property testing of memdb (rapid) with a sampled concurrent one-writer/many-readers phase",
         "quick": {"shards": 16, "n": 1500, "timeout": 600},
-        "thorough": {"shards": 16, "n": 40000, "timeout": 3400, "race": True},
+        "thorough": {"shards": 16, "n": 30000, "timeout": 3400, "race": True},
         "floor": {"quick": 2000, "thorough": 50000},
         "shrink": False,
         "rule": "rapid draws op lists over hostile keys and all comparers: Put (overwrites changing the value length), Delete (incl. absent keys), Get/Contains, Find, ranged iterator walks against the cursor model, Reset and reuse; Len and Size are compared with the model after every op and slices handed out earlier must keep their contents. About every 8th case adds a concurrent phase: one writer putting 200-3000 keys (with overwrites of varying length) while 2-8 readers walk forwards/backwards and look up: keys strictly ordered, every pair was stored, keys present before the walk are not skipped, a finished Put is visible. "
@@ -158,7 +158,7 @@ CHECKS = {
         "test": "TestC16", "level": "exploration", "engine": "component",
         "technique": "property-based testing: filter no-false-negative law, table-level filtered lookups, and differential replay of DB programs under different filter policies",
         "quick": {"shards": 16, "n": 250, "timeout": 600},
-        "thorough": {"shards": 16, "n": 12000, "timeout": 3000},
+        "thorough": {"shards": 16, "n": 30000, "timeout": 3400},
         "fuzz": [{"pkg": "./checks", "name": "FuzzC16", "seconds": 120}],
         "floor": {"quick": 1000, "thorough": 30000},
         "shrink": False,
@@ -186,7 +186,7 @@ CHECKS = {
         "test": "TestC18", "level": "exploration", "engine": "dbm",
         "technique": "property-based lifecycle scripts over generated histories, with the checker's storage as mutation log",
         "quick": {"shards": 13, "n": 300, "timeout": 600, "extra": [{"test": "TestC18S", "n": 150, "shards": 3}]},
-        "thorough": {"shards": 13, "n": 6000, "timeout": 3400, "extra": [{"test": "TestC18S", "n": 8000, "shards": 3}]},
+        "thorough": {"shards": 13, "n": 18000, "timeout": 3400, "extra": [{"test": "TestC18S", "n": 20000, "shards": 3}]},
         "floor": {"quick": 1000, "thorough": 20000},
         "shrink": False,
         "replay_runs": 10,
@@ -200,7 +200,7 @@ CHECKS = {
         "test": "TestC19", "level": "exploration", "engine": "dbm",
         "technique": "property-based testing of leveldb.Recover over generated settled layouts with manifest loss and table-block damage; physical-entry oracle from the checker's own table/journal parsers",
         "quick": {"shards": 16, "n": 700, "timeout": 600},
-        "thorough": {"shards": 16, "n": 8000, "timeout": 3400},
+        "thorough": {"shards": 16, "n": 5000, "timeout": 3400},
         "floor": {"quick": 500, "thorough": 10000},
         "replay_runs": 5,
         "rule": "rapid draws a history (all layouts, overwritten and deleted keys, data left in the journal), settles and closes it, then removes / truncates / garbles the manifest or drops CURRENT, optionally alters one byte in 1-4 drawn table data blocks (block map from the checker's own table parser, taken before the damage), calls leveldb.Recover and continues with further generated steps; the C06 well-formedness predicate runs on every version installed by and after Recover. "
@@ -214,7 +214,7 @@ CHECKS = {
         "test": "TestC04", "level": "fault_enumeration", "engine": "crash",
         "technique": "crash-point injection over generated workloads: durability-tracking storage, admissible post-crash images, subset-solver oracle (rapid); thorough enumerates every crash instant of each generated history",
         "quick": {"shards": 16, "n": 1500, "timeout": 600},
-        "thorough": {"shards": 16, "n": 120, "timeout": 3400},
+        "thorough": {"shards": 16, "n": 60, "timeout": 3400},
         "floor": {"quick": 2000, "thorough": 30000},
         "replay_runs": 10,
         "rule": "rapid draws a workload (puts, deletes, batches, oversized batches, explicit transactions, bursts of concurrent writers released together so that they merge, CompactRange, reopen; per-write Sync flags; tiny buffers; MaxManifestFileSize 1/64/1024/default), a crash instant t among the mutating storage operations (counted from before the first Open), a per-file tail mode (unsynced tail lost / kept / cut at a byte / cut+zeros / cut+garbage) and optionally 1-2 further crash instants inside the recovery Open. The storage captures the durable image atomically at t; writes whose call had returned nil with Sync before t (and transactions whose Commit had returned) are mandatory. Oracle: Open(image) succeeds; the full scan R equals apply(S) for some subset S of the issued batches in issue order containing all mandatory ones (linear-time subset solver; values identify their writer); then 0-25 further operations run against the reopened DB with R as model, C06 invariants on every version. "
@@ -227,7 +227,7 @@ CHECKS = {
         "test": "TestC08", "level": "fault_enumeration", "engine": "fault",
         "technique": "fault injection at generated (operation kind, file type, k-th occurrence) positions over generated workloads, subset-solver and per-key admissible-value oracles (rapid)",
         "quick": {"shards": 16, "n": 150, "timeout": 900},
-        "thorough": {"shards": 16, "n": 4000, "timeout": 3400},
+        "thorough": {"shards": 16, "n": 6000, "timeout": 3400},
         "floor": {"quick": 500, "thorough": 15000},
         "replay_runs": 5,
         "rule": "rapid draws a workload (writes with Sync mix, reads, CompactRange, reopen, explicit transactions, oversized batches) and a plan of 1-3 faults (kind in create/open/read/write(short)/sync/close/remove/rename/setmeta x file type journal/table/manifest/any x k-th occurrence x repeat 1,2,5 or until healed), armed and healed at drawn steps. While running, every Get must return an error, or a value that is the effect of the last successful write to the key or of a later failed write. After healing (quiescent) and again after close+reopen the full scan must equal apply(S) with all successful writes in S and failed writes optional (subset solver). Continued use is checked with the full model oracle. A quarter of the cases then alter one byte of a table data block at rest: every read returns the stored value or an error. Calls that do not return within 25 s are counted inconclusive here (C09 decides them). "
@@ -240,7 +240,7 @@ CHECKS = {
         "test": "TestC09", "level": "exploration", "engine": "fault",
         "technique": "fault injection over generated workloads with a watchdog: bounded responsiveness after the injected failures stop, confirmed by a stable-blocked-state test on two goroutine dumps (rapid)",
         "quick": {"shards": 12, "n": 80, "timeout": 1200, "extra": [{"test": "TestC09W", "n": 120, "shards": 6}]},
-        "thorough": {"shards": 12, "n": 2500, "timeout": 3400, "extra": [{"test": "TestC09W", "n": 6000, "shards": 6}]},
+        "thorough": {"shards": 12, "n": 7000, "timeout": 3400, "extra": [{"test": "TestC09W", "n": 16000, "shards": 6}]},
         "floor": {"quick": 300, "thorough": 8000},
         "replay_runs": 2,
         "replay_timeout": 600,
@@ -268,7 +268,7 @@ CHECKS = {
         "test": "TestC10", "level": "exploration", "engine": "conc",
         "technique": "property-based generation of concurrent writer programs with racing lock competitors; invariant checking over the write-path event trace (verif hook) joined with call results",
         "quick": {"shards": 16, "n": 500, "timeout": 900, "gomaxprocs": [0, 1, 2, 4]},
-        "thorough": {"shards": 16, "n": 8000, "timeout": 3400, "gomaxprocs": [0, 1, 2, 4, 16]},
+        "thorough": {"shards": 16, "n": 14000, "timeout": 3400, "gomaxprocs": [0, 1, 2, 4, 16]},
         "floor": {"quick": 1000, "thorough": 30000},
         "shrink": False,
         "replay_runs": 200,
